@@ -35,6 +35,7 @@ func genC01(c *Ctx) {
 	writeAfterFault(c, "fasta")
 	specialCases(c, "fasta")
 	flatBufferRecords(c, "fasta")
+	fastaLengthSweep(c)
 	// Per-record encoding: Write == MarshalText == model bytes; lines <= 80.
 	for i := 0; i < c.n(300); i++ {
 		r := c.fastaRec(400)
